@@ -58,6 +58,20 @@ def check(model: Model, rep: Report, tier: str):
     with rep.isolated():
         instance_state_rule(model, rep, "C10.T6", "a duration configuration belongs to its registry: the table of a duration registry is bound per instance, not a class-level "
                             "container shared by all registries", keep=lambda c: c.module.relpath.endswith("registry_duration.py"))
+    from .c01 import r5 as _r5, r6 as _r6
+    with rep.isolated():
+        share_rule(rep, model, _r5, "C10.T13", "an operation added without relation waits for the LATEST operation on any of its channels: the leaf query searches the whole graph, deepest "
+                   "layer first (= C01.R5); a query that misses the channel's last operation hangs the new one on the root, on top of what already occupies the channel")
+    with rep.isolated():
+        share_rule(rep, model, _r6, "C10.T13", "")
+    from .c05 import _k1_k2
+    with rep.isolated():
+        share_rule(rep, model, _k1_k2, "C10.T11", "library circuits are nested copies: copy() of every operation class keeps its duration strategy, channel and relation "
+                   "(= C05.K1/K2); a copied wait that lasts 0 lets what follows start while the measurement it was to out-wait still occupies the channel")
+    from .c01 import r10 as _r10
+    with rep.isolated():
+        share_rule(rep, model, _r10, "C10.T12", "under a temporary duration configuration EVERY duration strategy reads the configuration in force: the global strategies read "
+                   "through the one getter the override replaces (= C01.R10); a strategy that keeps reading the file configuration disagrees with the operations it is to out-wait")
     from .c03 import h5
     with rep.isolated():
         share_rule(rep, model, lambda m, r: h5(m, r, cg), "C10.T5", "memoised start times are keyed per link: unrolled repetitions and look-alike blocks never share an entry (= C03.H5)",
